@@ -157,6 +157,7 @@ pub fn generate(seed: u64, knobs: &Knobs) -> C10Scenario {
         allow_file_input: true,
         allow_bundle: true,
         memory_safe: backend == Backend::Memory,
+        allow_outside: knobs.layer != Layer::LW,
     };
     let graph_mode = knobs.include_graph && knobs.layer == Layer::L1;
     let pk = if graph_mode {
@@ -357,6 +358,20 @@ pub fn generate(seed: u64, knobs: &Knobs) -> C10Scenario {
             }
             world.externals.push(w);
         }
+    }
+    // a bundled module above the working directory becomes an editable external
+    if let Some(pos) = project.other.iter().position(|e| e.path == "../outside/lib.lua") {
+        project.other.remove(pos);
+        let outside = SourceFile {
+            path: "../outside/lib.lua".to_owned(),
+            body_index: 0,
+            version: 0,
+            requires: Vec::new(),
+            use_alias: false,
+            bare: false,
+        };
+        let w = mk(&outside);
+        world.externals.push(w);
     }
     world.next_id = next_id;
     for (i, (path, _content)) in project.data.iter().enumerate() {
